@@ -210,6 +210,7 @@ class LazyInit(Strategy):
         self.frac = frac
         self.all_sites = sites
         self.at = at  # (absolute file, line): only the sites around that line are enabled
+        self.fn_park = None
         self.sites = frozenset()
         self.parked = set()
 
@@ -221,11 +222,17 @@ class LazyInit(Strategy):
         if self.at is not None:
             f, ln = self.at
             group = [x for x in ordered if x[0] == f and abs(x[1] - ln) <= 6]
-            # usually one single line of the group is the parking place of this run, so that every
-            # statement boundary inside a lazy-initialisation body gets its turn (before the
-            # check-then-act store, between two stores, after the last one)
-            if group and sim.rng.random() < 0.7:
+            # usually one single line is the parking place of this run, so that every statement
+            # boundary gets its turn (before the check-then-act store, between two stores, after the
+            # last one); in a third of the runs it is *any* line of the function that holds the site
+            # (the victim of a race is often a few lines away from the write that causes it)
+            r = sim.rng.random()
+            self.fn_park = None
+            if group and r < 0.45:
                 group = [group[sim.rng.randrange(len(group))]]
+            elif r < 0.80:
+                self.fn_park = sim.rng.randrange(1 << 16)
+                group = []
             self.sites = frozenset(group)
         else:
             self.sites = frozenset(x for x in ordered if sim.rng.random() < self.frac)
@@ -243,6 +250,13 @@ class LazyInit(Strategy):
                 return t
         if event != "line" and event != "opcode":
             return None
+        if self.fn_park is not None and self.at is not None and frame.f_code.co_filename == self.at[0]:
+            # resolve "some line of the function holding the site" when that function shows up
+            code = frame.f_code
+            lines = sorted({ln for _, _, ln in code.co_lines() if ln})
+            if lines and lines[0] <= self.at[1] <= lines[-1] and self.at[1] in lines:
+                self.sites = frozenset([(self.at[0], lines[self.fn_park % len(lines)])])
+                self.fn_park = None
         if (frame.f_code.co_filename, frame.f_lineno) not in self.sites:
             return None
         if sim.rng.random() >= (self.q if event == "line" else self.q / 6.0):
